@@ -263,3 +263,22 @@ PLANS["C14"] = gdt_plan("gdt", 800, 20000,
 PLANS["C15"] = gdt_plan("desc", 2000, 300000,
     "Descriptor::tss_segment_unchecked for every pointer of the 64-bit boundary lattice + seeded random pointers (the function never dereferences), tss_segment(&'static); the four constructors and six DescriptorFlags presets; dpl() on random user/system patterns x 4 levels; field offsets/sizes of TaskStateSegment and DescriptorTablePointer by pointer arithmetic on real instances, iomap_base initial value, raw bytes of a pointer structure; distinct = distinct (operation, arguments)",
     ({"module": "MC_Gdt", "cfg": "MC_Gdt.cfg", "workers": 4},))
+
+
+def idt_plan(family, n_quick, n_thorough, rule, design, exhaustive_note=None):
+    def mk(tier, seed):
+        n = n_quick if tier == "quick" else n_thorough
+        runs = []
+        for sd in ([seed] if tier == "quick" else [seed, seed + 1]):
+            for prof in ("dev", "rel"):
+                runs.append({"name": "%s%d" % (family, sd), "prof": prof, "args": [family, "--seed", str(sd), "--n", str(n)], "vtimeout": 7200})
+        return {"design": [dict(d) for d in design], "runs": runs, "trace_module": "Trace_Idt", "level": "model_checking",
+                "rule": rule, "assumptions": CPU_ASSUME[:1] + ["the 64-bit gate format, vector classes (reserved / error-code / diverging) in Idt.tla are transcribed from SDM vol. 3 ch. 6 (APM vol. 2 ch. 8)"] + ADDR_ASSUME[2:],
+                "exhaustive_note": exhaustive_note}
+    return mk
+
+
+PLANS["C12"] = idt_plan("idt", 1000, 200000,
+    "for ALL 256 vectors a handler address (canonical lattice / random) is set through every path that may reach the vector (named field, idt[v], slice_mut, idt[a..=b], idt[a..], (Bound,Bound)) followed by 2-7 random option setters (present, disable_interrupts, privilege level 0-3, stack index 0-6, code selector); the raw 4096 bytes are diffed after every call; Index/IndexMut<u8> offsets or refusal and named-field offsets for all 256 vectors; range access through all 13 Index impls (+ all 9 Bound kind combinations, slice/slice_mut) on boundary pairs {0,1,30,31,32,33,100,200,254,255}^2 + random (thorough: all 65536 pairs); new/default/clone/reset; trapped lidt operand; distinct = distinct (operation, arguments)",
+    ({"module": "MC_Idt", "cfg": "MC_Idt.cfg", "workers": 8},),
+    exhaustive_note="all 256 vectors x access paths; thorough: all (start,end) u8 pairs for the range forms")
